@@ -45,11 +45,12 @@ func NewSlotDef(s *slip.Scope, def slip.Object, depth int) *SlotDef {
 		}
 		for i := 1; i < len(td); i += 2 {
 			switch td[i] {
-			case slip.Symbol(":reader"):
+			// The plural forms are what LoadForm() writes.
+			case slip.Symbol(":reader"), slip.Symbol(":readers"):
 				sd.readers = appendSymbol(s, depth, ":reader", sd.readers, td[i+1])
-			case slip.Symbol(":writer"):
+			case slip.Symbol(":writer"), slip.Symbol(":writers"):
 				sd.writers = appendSymbol(s, depth, ":writer", sd.writers, td[i+1])
-			case slip.Symbol(":accessor"):
+			case slip.Symbol(":accessor"), slip.Symbol(":accessors"):
 				sd.accessors = appendSymbol(s, depth, ":accessor", sd.accessors, td[i+1])
 			case slip.Symbol(":initarg"):
 				sd.initargs = appendSymbol(s, depth, ":initarg", sd.initargs, td[i+1])
